@@ -170,6 +170,13 @@ class P(Prop):
             self.stats.bump("names:flop-named-like-io-net")
             if rng.random() < 0.5:
                 gen.add_flops(rng, c, n_flops=(1, 2), connect_all=True)
+        elif rng.random() < 0.3:
+            # instance names one of which extends another (`r`, `r_h`, `r_m`): `<inst>_<pin>` names then interleave when
+            # sorted (r_d < r_h_d but r_h_q < r_q), so pairing D and Q nets by position in two sorted lists goes wrong
+            fam = ["r", "r_h", "r_m", "r_e"]
+            rng.shuffle(fam)
+            gen.add_flops(rng, c, n_flops=(2, 3), connect_all=True, inst_names=fam)
+            self.stats.bump("names:flop-name-extends-another")
         else:
             gen.add_flops(rng, c, n_flops=(1, 3), connect_all=True)
         if rng.random() < 0.2:
